@@ -129,6 +129,9 @@ func Main(id, tier string, seed int64, budget time.Duration, root, out string) i
 		} else {
 			seenCase[ck] = true
 		}
+		if !c.Known[v.Class] && (seenClass[v.Class] >= 2 || reported >= 6) {
+			continue // a few per class are enough (all are counted in the evidence); judging can be slow
+		}
 		// reproduce through the replay path before believing it
 		ok := true
 		var got, want string
